@@ -380,6 +380,31 @@ func deliveryPortRule(c *Ctx) {
 				}{v, from})
 			}
 			walk(recv, b, map[ssa.Value]bool{})
+			// the search may live in an unexported helper (`dstPort := m.mustFindDevicePort(dst)`):
+			// its returned values are the leaves, its parameters stand for the call's arguments
+			bind := map[ssa.Value]ssa.Value{}
+			helperNonNil := false
+			if len(leaves) == 1 {
+				if hc, isCall := leaves[0].v.(*ssa.Call); isCall {
+					if g := hc.Common().StaticCallee(); g != nil && len(g.Blocks) > 0 && pkgOfFn(g) == pkgOfFn(sf) && len(g.Params) == len(hc.Common().Args) {
+						for i, pa := range g.Params {
+							bind[pa] = hc.Common().Args[i]
+						}
+						leaves = leaves[:0]
+						helperNonNil = true
+						for _, gb := range g.Blocks {
+							if ret, isR := gb.Instrs[len(gb.Instrs)-1].(*ssa.Return); isR && len(ret.Results) == 1 {
+								walk(ret.Results[0], gb, map[ssa.Value]bool{})
+							}
+						}
+						for _, lf := range leaves {
+							if isNilConst(lf.v) {
+								helperNonNil = false
+							}
+						}
+					}
+				}
+			}
 			why := ""
 			for _, lf := range leaves {
 				if isNilConst(lf.v) {
@@ -396,6 +421,9 @@ func deliveryPortRule(c *Ctx) {
 						if side == bo.Y {
 							other = bo.X
 						}
+						if bv, bound := bind[other]; bound {
+							other = bv
+						}
 						if cl, isCall := side.(*ssa.Call); isCall && cl.Common().IsInvoke() && cl.Common().Method.Name() == "AsRemote" && cl.Common().Value == lf.v {
 							if strings.HasSuffix(VKey(other), ".Dst") || strings.HasSuffix(VKey(other), "Dst") {
 								matched = true
@@ -408,7 +436,7 @@ func deliveryPortRule(c *Ctx) {
 				}
 			}
 			// nil receiver excluded
-			nonNil := false
+			nonNil := helperNonNil
 			for _, fact := range FactsAt(b) {
 				if bo, isBO := fact.Cond.(*ssa.BinOp); isBO && (isNilConst(bo.X) || isNilConst(bo.Y)) {
 					if (bo.Op == token.EQL && !fact.Truth) || (bo.Op == token.NEQ && fact.Truth) {
@@ -454,19 +482,60 @@ func runC31(c *Ctx) {
 			}
 		}
 		why := ""
-		ph, isPhi := count.(*ssa.Phi)
-		if count == nil || !isPhi || len(ph.Edges) != 2 {
+		// the two-way choice is a phi in msgMetaToFlits, or the two results of an
+		// unexported helper of the package whose parameters stand for the call's arguments
+		type cntEdge struct {
+			v    ssa.Value
+			pred *ssa.BasicBlock
+		}
+		var edges []cntEdge
+		fa := sf
+		bindP := map[ssa.Value]ssa.Value{}
+		fromPhi := func(ph *ssa.Phi) {
+			for i, e := range ph.Edges {
+				edges = append(edges, cntEdge{e, ph.Block().Preds[i]})
+			}
+		}
+		if ph, isPhi := count.(*ssa.Phi); isPhi {
+			fromPhi(ph)
+		} else if cl, isCall := count.(*ssa.Call); isCall {
+			if g := cl.Common().StaticCallee(); g != nil && len(g.Blocks) > 0 && pkgOfFn(g) == pkgOfFn(sf) && len(g.Params) == len(cl.Common().Args) {
+				fa = g
+				for i, pa := range g.Params {
+					bindP[pa] = cl.Common().Args[i]
+				}
+				for _, gb := range g.Blocks {
+					if ret, isR := gb.Instrs[len(gb.Instrs)-1].(*ssa.Return); isR && len(ret.Results) == 1 {
+						if rph, isP := ret.Results[0].(*ssa.Phi); isP {
+							fromPhi(rph)
+						} else {
+							edges = append(edges, cntEdge{ret.Results[0], gb})
+						}
+					}
+				}
+			}
+		}
+		valueReadsFieldB := func(v ssa.Value, name string) bool {
+			if valueReadsField(v, name) {
+				return true
+			}
+			if bv, bound := bindP[stripConv(v)]; bound {
+				return valueReadsField(bv, name)
+			}
+			return false
+		}
+		if count == nil || len(edges) != 2 {
 			why = "the number of flits is not the two-way choice between 1 (empty message) and the size-derived count"
 		} else {
 			var calc ssa.Value
 			one := false
 			var calcPred *ssa.BasicBlock
-			for i, e := range ph.Edges {
-				if cst, isC := e.(*ssa.Const); isC && cst.Value != nil && cst.Value.String() == "1" {
+			for _, e := range edges {
+				if cst, isC := e.v.(*ssa.Const); isC && cst.Value != nil && cst.Value.String() == "1" {
 					one = true
 				} else {
-					calc = e
-					calcPred = ph.Block().Preds[i]
+					calc = e.v
+					calcPred = e.pred
 				}
 			}
 			if !one || calc == nil {
@@ -483,16 +552,16 @@ func runC31(c *Ctx) {
 				if sub == nil || sub.Op != token.SUB || !constIs(sub.Y, "1") {
 					why = "the flit count is not the ceiling division (bytes-1)/flitSize+1"
 				} else {
-					if !valueReadsField(quo.Y, "FlitByteSize") {
+					if !valueReadsFieldB(quo.Y, "FlitByteSize") {
 						why = "the divisor of the flit count is not the configured flit size"
 					}
-					sl := DataSlice(sf, sub.X)
+					sl := DataSlice(fa, sub.X)
 					rb, ro := false, false
 					for v := range sl {
-						if valueReadsField(v, "TrafficBytes") {
+						if valueReadsFieldB(v, "TrafficBytes") {
 							rb = true
 						}
-						if valueReadsField(v, "EncodingOverhead") {
+						if valueReadsFieldB(v, "EncodingOverhead") {
 							ro = true
 						}
 					}
@@ -522,7 +591,7 @@ func runC31(c *Ctx) {
 					// the computed edge is taken only when TrafficBytes > 0
 					gated := false
 					for _, fact := range FactsAt(calcPred) {
-						if bo, isBO := fact.Cond.(*ssa.BinOp); isBO && fact.Truth && bo.Op == token.GTR && valueReadsField(bo.X, "TrafficBytes") && constIs(bo.Y, "0") {
+						if bo, isBO := fact.Cond.(*ssa.BinOp); isBO && ((fact.Truth && bo.Op == token.GTR) || (!fact.Truth && bo.Op == token.LEQ)) && valueReadsFieldB(bo.X, "TrafficBytes") && constIs(bo.Y, "0") {
 							gated = true
 						}
 					}
@@ -560,21 +629,41 @@ func runC31(c *Ctx) {
 	if f := c.fn("reassembly", "noc/networking/switching/endpoint", "incomingMW", "recv"); f != nil {
 		sf := p.SSAFunc(f)
 		keyOK := false
-		for _, b := range sf.Blocks {
-			for _, in := range b.Instrs {
-				bo, ok := in.(*ssa.BinOp)
-				if !ok || bo.Op != token.EQL {
-					continue
+		var scanKey func(fn *ssa.Function, bind map[ssa.Value]ssa.Value, depth int)
+		scanKey = func(fn *ssa.Function, bind map[ssa.Value]ssa.Value, depth int) {
+			key := func(v ssa.Value) string {
+				if bv, bound := bind[v]; bound {
+					return VKey(bv)
 				}
-				l, r := VKey(bo.X), VKey(bo.Y)
-				if strings.HasSuffix(r, ".MsgID") {
-					l, r = r, l
-				}
-				if strings.HasSuffix(l, ".MsgID") && strings.HasSuffix(r, ".Msg.ID") {
-					keyOK = true
+				return VKey(v)
+			}
+			for _, b := range fn.Blocks {
+				for _, in := range b.Instrs {
+					// the search may live in an unexported helper: its parameters stand for the call's arguments
+					if cl, isCall := in.(*ssa.Call); isCall && depth < 1 {
+						if g := cl.Common().StaticCallee(); g != nil && len(g.Blocks) > 0 && pkgOfFn(g) == pkgOfFn(sf) && len(g.Params) == len(cl.Common().Args) {
+							nb := map[ssa.Value]ssa.Value{}
+							for i, pa := range g.Params {
+								nb[pa] = cl.Common().Args[i]
+							}
+							scanKey(g, nb, depth+1)
+						}
+					}
+					bo, ok := in.(*ssa.BinOp)
+					if !ok || bo.Op != token.EQL {
+						continue
+					}
+					l, r := key(bo.X), key(bo.Y)
+					if strings.HasSuffix(r, ".MsgID") {
+						l, r = r, l
+					}
+					if strings.HasSuffix(l, ".MsgID") && strings.HasSuffix(r, ".Msg.ID") {
+						keyOK = true
+					}
 				}
 			}
 		}
+		scanKey(sf, nil, 0)
 		c.Check(keyOK, "reassembly", "endpoint.incomingMW.recv#key", p.Decl(f).Pos(), "records are matched by the flit payload's message ID", "an arriving flit is not matched to its assembly record by comparing the record's MsgID with the flit payload's Msg.ID: flits of different messages could merge")
 		fd := p.Decl(f)
 		initOK, reqOK := false, false
